@@ -998,6 +998,35 @@ def results_direct_qpu(tier):
     )
 
 
+def results_direct_qpu3(tier):
+    """three and four histogram entries (concrete keys from a menu, symbolic counts): rows of to_cirq_result are
+    whole shots - per-key regrouping of columns would change the joint multiset"""
+    import itertools as _it
+
+    import cirq_ionq
+
+    def body(cx, wrong=False):
+        n = 2
+        meas = [('a', (0,)), ('b', (1,))]
+        menus = [[0b00, 0b10, 0b01], [0b00, 0b01, 0b10, 0b11], [0b11, 0b00, 0b10], [0b01, 0b10, 0b11]]
+        keys = menus[cx.choose('menu', len(menus))]
+        c = [cx.int(f'c{i}', 0, 2) for i in range(len(keys))]
+        res = cirq_ionq.QPUResult(counts={k: c[i] for i, k in enumerate(keys)}, num_qubits=n, measurement_dict={k: list(w) for k, w in meas})
+        cs = [int(x) for x in c]
+        if sum(cs) == 0:
+            return
+        r = res.to_cirq_result()
+        rows = sorted((int(r.measurements['a'][i][0]), int(r.measurements['b'][i][0])) for i in range(sum(cs)))
+        exp = sorted(_it.chain.from_iterable([((k >> 1) & 1, k & 1)] * cs[i] for i, k in enumerate(keys)))
+        if wrong:
+            exp = [(b_, a_) for a_, b_ in exp]
+            exp = sorted(exp) + [(1, 1)]
+        cx.check(rows == exp, 'direct.qpu3.to_cirq_result rows are the shots of the histogram (joint multiset)')
+
+    return Obligation('ionq.results.qpu.direct3', body, twin=lambda cx: body(cx, wrong=True), opts={'weight': 3},
+                      desc='QPUResult with 3-4 histogram entries on 2 wires and two keys (concrete keys from a menu, symbolic counts 0..2): the multiset of rows of to_cirq_result equals the multiset of shots (joint distribution across keys)')
+
+
 def results_direct_sim(tier):
     import cirq_ionq
 
@@ -1310,6 +1339,7 @@ def obligations(tier):
     obs += split(results_job_sim(tier), 'layout', len(jm), lambda v: f'n{jm[v][0]}l{jm[v][1]}')
     dn = direct_ns(tier)
     obs += split(results_direct_qpu(tier), 'n', len(dn), lambda v: f'n{dn[v]}')
+    obs.append(results_direct_qpu3(tier))
     obs += split(results_direct_sim(tier), 'n', len(dn), lambda v: f'n{dn[v]}')
     for sh in AQT_SHAPES_QUICK + (AQT_SHAPES_MORE if tier != 'quick' else []):
         obs.append(aqt_json(sh, tier))
